@@ -130,6 +130,8 @@ Proof.
   - destruct (find_pod id (pods st)); cbn [fst]; [exact M|].
     destruct (find_quota qn (quotas st)); cbn [fst]; [|exact M].
     unfold charge. cbn [quotas]. apply MC_upd_used. apply MC_touch. apply MC_taint. exact M.
+  - destruct (find_quota id (quotas st)) as [q00|]; cbn [fst quotas]; [|exact M].
+    apply MC_refresh. apply MC_map; [|exact M]. intros q _ Hq. destruct (q_id q =? id); exact Hq.
   - exact M.
 Qed.
 
@@ -166,7 +168,8 @@ Proof.
       rewrite Es in H. exact H.
     - pose proof (check_np_attempt_model cfg st (OCheck id) id (or_intror eq_refl) M) as H.
       rewrite Es in H. exact H. }
-  rewrite Hc. cbn [Z.eqb negb]. rewrite Es. cbn [fst].
+  rewrite Hc. cbn [Z.eqb negb].
+  pose proof (force_model cfg st o) as Hfm. rewrite Es in Hfm. cbn [fst snd] in Hfm. rewrite Hfm.
   pose proof (step_dump cfg st o) as Hd. rewrite Es in Hd. cbn [fst snd] in Hd. rewrite Hd.
   pose proof (INV_step cfg wf st sn o I F) as I'. pose proof (FL_step cfg wf st sn o I F) as F'.
   pose proof (MC_step cfg st o M Hb1) as M'.
